@@ -35,7 +35,9 @@ Inductive stage :=
 | GCycle
 | GZcross (h : nat)                        (* zcross with hysteresis h on the counting source (first_sign = 0) *)
 | GBatched (n : nat)
-| GResampleTV (order old new : nat).       (* resample with old/new given as a Stream (source 1) *)
+| GResampleTV (order old new : nat)        (* resample with old/new given as a Stream (source 1) *)
+| GAttack (n : nat)                        (* attack(a, d, sustain stream), n = len_a + len_d *)
+| GRefuse (e : string).                    (* a call that raises e instead of building a stage *)
 
 (* AudioLazy's rint(.5*(order+1)) (half away from zero) and int(.5*(order+1)) *)
 Definition rs_n0 (order : nat) : nat := (order + 2) / 2.
@@ -64,6 +66,8 @@ Definition smach (g : stage) : machine nat nat :=
   | GCycle => mcycle
   | GZcross h => mzcross (fun x => h <? x)
   | GBatched n => omap (fun _ => 0) (mbatched n)
+  | GAttack n => mattack 0 n
+  | GRefuse e => mraise e
   | GResampleTV order old new =>
       mresample_tv 0 (rs_n0 order) (rs_idx0 order new) (rs_thr order new) (rs_stp old) (rs_one new)
   end.
@@ -82,10 +86,15 @@ Definition ptrace (first : stage) (rest : list stage) (ds : list srcd) (k : nat)
   let m := pmach first rest in
   map erase (run m (senv ds) fuel0 k (init m) (spos0 ds)).
 
-(* Construction.  Machines are built, never stepped, by their constructors, so construction
-   reads nothing.  The only exception in the code base are the combinatoric itertools wrappers
-   (product, permutations, combinations, ...), whose C constructors drain their input:
-   [eager = true] models that (reads source 0 until it ends or raises). *)
+(* Construction.  Machines are built, never stepped, by their constructors, so construction reads nothing
+   ([CLazy]).  Exceptions in the code base:
+   [CEager]: the combinatoric itertools wrappers (product, permutations, combinations, ...) drain source 0;
+   [CPrefix src n]: a documented bounded prefix of a PARAMETER source is taken when the stage is built
+     (LinearFilter.__call__(seq, memory=iterable): takewhile over enumerate(memory) pulls lm + 1 items, or
+     all of them and an end probe when there are fewer);
+   [CRefuse e]: the call raises e (invalid arguments) - it must do so without touching any source. *)
+Inductive ckind := CLazy | CEager | CPrefix (src n : nat) | CRefuse (e : string).
+
 Fixpoint drain (fuel : nat) (d : srcd) (p : nat) : list eev :=
   match fuel with
   | 0 => [EO]
@@ -95,5 +104,26 @@ Fixpoint drain (fuel : nat) (d : srcd) (p : nat) : list eev :=
            | Boom => [ER 0; EX tripwire]
            end
   end.
-Definition ctrace (eager : bool) (ds : list srcd) : list eev :=
-  if eager then drain 100 (nth 0 ds (SFin 0)) 0 else [].
+Fixpoint ctake (src n : nat) (d : srcd) (p : nat) : list eev :=
+  match n with
+  | 0 => []
+  | S n' => match src_resp d p with
+            | Item _ => ER src :: ctake src n' d (S p)
+            | End => [EE src]
+            | Boom => [ER src; EX tripwire]
+            end
+  end.
+Definition ctrace (ck : ckind) (ds : list srcd) : list eev :=
+  match ck with
+  | CLazy => []
+  | CEager => drain 100 (nth 0 ds (SFin 0)) 0
+  | CPrefix src n => ctake src n (nth src ds (SFin 0)) 0
+  | CRefuse e => [EX e]
+  end.
+(* does the construction leave a stage to pull from? *)
+Definition builds (ck : ckind) (ds : list srcd) : bool :=
+  match ck with
+  | CLazy => true
+  | CPrefix src n => forallb (fun e => match e with EX _ => false | _ => true end) (ctrace ck ds)
+  | _ => false
+  end.
